@@ -233,7 +233,7 @@ class ShelxlRefine():
         os.chdir(current_path)
         if p.returncode != 0:
             status = False
-        if os.stat(resfile).st_size < 10:
+        if not os.path.exists(resfile) or os.stat(resfile).st_size < 10:
             # status is False if shelx was unsecessful
             status = False
         if not status:
@@ -258,7 +258,8 @@ class ShelxlRefine():
             parameters = float(parameterobj.group(0).split()[0])
             restrobj = re.search(r'(\d+\s+restraints)', list_file[find_line(list_file, r" GooF = S =.*")])
             restraints = float(restrobj.group(0).split()[0])
-        except AttributeError:
+        except (AttributeError, IndexError, TypeError):
+            # The list file does not have the expected lines (e.g. SHELXL stopped early):
             if self.shx.debug:
                 raise
             return False
